@@ -160,6 +160,14 @@ class StructType(AggregateType):
             repr(self._name), repr(self._declarations)
         )
 
+    def __eq__(self, other):
+        """A structure type that reaches a module through several imports is
+        loaded several times; the copies denote the same type."""
+        return repr(self) == repr(other)
+
+    def __hash__(self):
+        return hash(repr(self))
+
     def GetName(self):
         return self._name
 
